@@ -275,6 +275,20 @@ let () =
                (if idx > 0 && idx < tot then match it_deref d (it_decr d it) with
                    | Some i -> Buffer.add_string b (Printf.sprintf " prev=%d" (int_of_nat i)) | None -> Buffer.add_string b " prev=INVALID"
                  else Buffer.add_string b " prev=-");
+               (* the same iterator walked -- -- ++ ++ ++ -- (steps leaving [0,tot) are skipped) *)
+               Buffer.add_string b " walk=";
+               (let w = ref it and wi = ref idx and first = ref true in
+                if idx < tot then
+                  List.iter (fun op ->
+                      let go = if op < 0 then (if !wi = 0 then false else (w := it_decr d !w; decr wi; true))
+                               else (if !wi + 1 >= tot then false else (w := it_incr d !w; incr wi; true)) in
+                      if go then begin
+                        let ((_, _), p2) = !w in
+                        (match it_deref d !w with
+                         | Some i -> Buffer.add_string b (Printf.sprintf "%s%d/%d" (if !first then "" else ",") (int_of_nat p2) (int_of_nat i))
+                         | None -> Buffer.add_string b (Printf.sprintf "%s%d/INVALID" (if !first then "" else ",") (int_of_nat p2)));
+                        first := false end) [-1; -1; 1; 1; 1; -1];
+                if !first then Buffer.add_string b "-");
                Buffer.contents b
              | "V" -> let r = a.(0) and q = a.(1) in
                let x = both (view_to_dataset O (rest 3) (nat_of_int a.(2))) regs.(r) in
